@@ -79,6 +79,13 @@ class Intervals:
         Range item i of start..end:  start <= i,  i + 1 <= end ;  Enumerate index over a slice: i + 1 <= len;
         unsigned x % y with y >= 1:  x % y + 1 <= y."""
         out = []
+        # tinyvec's ArrayVec invariant: len() <= capacity() of the same vector value
+        lens_ = [a for a in atoms if a.op == "call" and a.args[0] in libmodel.LEN_FNS and a.args[1]]
+        caps_ = [a for a in atoms if a.op == "call" and a.args[0] in libmodel.CAP_FNS and a.args[1]]
+        for l_ in lens_:
+            for c_ in caps_:
+                if l_.args[1][0] is c_.args[1][0]:
+                    out.append(("le", frozenset(((l_, 1), (c_, -1))), 0))
         for a in atoms:
             if a.op == "call" and isinstance(a.args[0], str) and a.args[0].endswith("::saturating_sub") and len(a.args[1]) == 2:
                 # unsigned saturating_sub(x, y) <= x
